@@ -125,9 +125,16 @@
       of `p` (ii) - retried if the worker is closing / `p` is in retry mode, else appended to the buffer -, i.e. the
       state of `p` changes; but the one-partition worker has no set at its bridge and no prepared answer, so its
       `deliver` is not enabled, and the only other step that sets `closing`, `Choice.closeW`, requires (`canClose`)
-      an empty buffer, nothing held, normal mode and `cur = some w`.  (i) with nothing of `p` buffered or held and
-      `canClose` would be a `closeW` step (NOT proved); (i) with messages of `p` buffered/held and (ii) need a new
-      choice in `Model.Pipeline` (a close that bounces the buffer / a re-check without an answer) - not done.
+      an empty buffer, nothing held, normal mode and `cur = some w`.  Props/C02multiQ.lean PROVES the two sub-cases of
+      (i) with nothing of `p` buffered or held, as single-step lemmas that keep `WRel (BRp p)`:
+      `proj_deliver_hidden_conn_closeW_p` (the worker is `p`'s current worker, normal mode, syn consumed, `p` not in
+      retry mode: the `Choice.closeW w` step, `canClose` holds) and `proj_deliver_hidden_conn_closing_p` (the worker
+      is already closing: no step); worker level `resp_hidden_conn`.  They are NOT wired into `delOK` / `projChoice` /
+      `projRun_sound` / `log_order_every_partition_checked` (those are unchanged and still exclude the case), and
+      there is no instance of the two lemmas on a concrete run (only the run `exForeignConn` itself is evaluated).
+      Still no simulation step: (i) in normal mode when the worker is not `p`'s current worker or `p` is in retry
+      mode there (`BRp` equates the closing modes), (i) with messages of `p` buffered/held, and (ii) - these need a
+      weaker `BRp` or a new choice in `Model.Pipeline` - not done.
   Also not established: that the computed projection ALWAYS satisfies `splitOKs` (`projSplitOK` is a checked premise
   of `log_order_every_partition_checked`, not a theorem), and the full `ProjSim` (no side condition).
 -/
